@@ -73,6 +73,7 @@ Definition run_case (st : dstate) (x : sexp) : dstate * outcome :=
   | SList (SAtom "c16.parse" :: a :: res) => (st, run_c16_parse a res)
   | SList (SAtom "c16.fuzz" :: res) => (st, run_c16_fuzz res)
   | SList [SAtom "c16.pe"; a; b; c] => (st, run_c16_pe a b c)
+  | SList (SAtom "c16.keyorder" :: a :: b :: c :: d :: res) => (st, run_c16_keyorder a b c d res)
   | SList [SAtom "c16.error"; SAtom why] => (st, mkOut ["prop C16 " ++ why] 1 1 [])
   | SList [SAtom "c19.include"; pats; set; res] => (st, run_c19_include pats set res)
   | SList [SAtom "c19.exclude"; ex; set; res] => (st, run_c19_exclude ex set res)
@@ -83,6 +84,7 @@ Definition run_case (st : dstate) (x : sexp) : dstate * outcome :=
   | SList [SAtom "c17.schemaeq"; a; b; obs] => (st, run_c17_schemaeq a b obs)
   | SList (SAtom "c15.setops" :: xs) => (st, run_c15_setops xs)
   | SList [SAtom "c13.validate"; sid; tr; dup; v; obs] => (st, run_c13_validate st sid tr dup v obs)
+  | SList [SAtom "c13.total"; sid; tr; a; b; res] => (st, run_c13_total st sid tr a b res)
   | SList [SAtom "c11"; sid; tr; l; r; a; b; c] => (st, run_c11 st sid tr l r a b c)
   | SList (SAtom "c12" :: xs) => (st, run_c12 st xs)
   | SList (SAtom "c14" :: xs) => (st, run_c14 st xs)
